@@ -157,6 +157,44 @@ pub fn check_case(c: &Case) -> Check {
                 }
                 drop(pf);
             }
+            // the quantified formula E inside other constructs, with the oracle still known: a counting
+            // list, an if-then-else, a double negation, and a fixed point ON ONE OF THE QUANTIFIED NAMES
+            // whose body lists that name next to E (lfp v # [v, E] >= 1 = E, gfp v # [v, E] >= 2 = E:
+            // the inner quantifier shadows v, so E does not change during the iteration)
+            if let Some(v0) = c.vars.first() {
+                let list: Vec<String> = c.vars.iter().map(|v| format!("n{}", v)).collect();
+                for (kw, want) in [("exists", &want_ex), ("forall", &want_all)] {
+                    let e = format!("({} {} # {})", kw, list.join(", "), body);
+                    let fp = c.f.fingerprint() as usize + c.vars.len();
+                    for (ti, text) in [
+                        format!("[{}] >= 1", e),
+                        format!("[{}, false] = 1", e),
+                        format!("if {} then true else false", e),
+                        format!("-(-{})", e),
+                        format!("lfp n{} # [n{}, {}] >= 1", v0, v0, e),
+                        format!("gfp n{} # [n{}, {}] >= 2", v0, v0, e),
+                        format!("lfp n{} # (n{} | {})", v0, v0, e),
+                        format!("gfp n{} # [{}, n{}] > [false, true]", v0, e, v0),
+                    ]
+                    .into_iter()
+                    .enumerate()
+                    {
+                        // a third of the templates per case (which third depends on the case)
+                        if (fp + ti) % 3 != 0 {
+                            continue;
+                        }
+                        let (r, pf) = front::eval_text(&text, None).map_err(|e| viol(format!("`{}` rejected: {}", text, e), &cj))?;
+                        let got = front::table_by_name(&r, &names).map_err(|e| viol(format!("`{}`: {}", text, e), &cj))?;
+                        if &got != want {
+                            return Err(viol(
+                                format!("`{}` (a quantifier inside another construct) evaluates to table {} but the oracle is {}", text, got.to_hex(), want.to_hex()),
+                                &cj,
+                            ));
+                        }
+                        drop(pf);
+                    }
+                }
+            }
             // the quantifier applied to a value the body reaches only through a fixed-point
             // variable: lfp X # (f | exists V # X) = f | exists V f, gfp X # (f & forall V # X) =
             // f & forall V f (X0=false, X1=f, X2=f|exists V f, stable; dually)
